@@ -28,6 +28,7 @@ Section JetLift.
   Local Open Scope F_scope.
   Local Notation poly := (@poly F).
   Local Notation tvec := (@tvec F).
+  Local Notation series := (@series F).
 
   Record jetfun : Type := mkJF {
     jf_k : nat;                                   (* num_tcoeffs_in_args *)
